@@ -310,7 +310,9 @@ func containerWriteCheck(format, ns string) string {
 	}
 	for k := 0; k < probe.Calls; k++ {
 		fw := &faultio.Writer{FailCall: k}
-		if err := write(fw); err == nil {
+		// a success status is only acceptable when the sink nevertheless received the complete output
+		// (the failing call carried no data)
+		if err := write(fw); err == nil && len(fw.Buf) != len(probe.Buf) { // block order varies (Go map iteration): compare sizes
 			return fmt.Sprintf("write call %d of %d failed but the writer returned nil (%d of %d bytes delivered)", k, probe.Calls, len(fw.Buf), len(probe.Buf))
 		}
 	}
@@ -394,7 +396,7 @@ func tokenStreamCheck(kind, alg, ns string) (out string) {
 	}
 	for call := 0; call < probe.Calls; call++ {
 		fw := &faultio.Writer{FailCall: call}
-		if got, err := write(fw); err == nil {
+		if got, err := write(fw); err == nil && (!sigDeterministic(alg) || !bytes.Equal(fw.Buf, probe.Buf)) {
 			return fmt.Sprintf("write call %d of %d failed but ToSealedWriter returned %s and no error", call, probe.Calls, got)
 		}
 	}
